@@ -366,6 +366,19 @@ class StubUniform(object):
         return self.u.copy()
 
 
+class _Dist(object):
+    def __init__(self, f):
+        self._f = f
+
+    def pdf(self, x):
+        return self._f(x)
+
+
+def _density_arg(case):
+    f = _density_fn(case["fkind"], case["fpars"])
+    return _Dist(f).pdf if case.get("fas") == "method" else f
+
+
 def _density_fn(kind, pars):
     a, b, c = pars
     if kind == "gauss":
@@ -401,10 +414,19 @@ def gen_cases(draw):
     if form in ("func-x", "func-range"):
         case["fkind"] = draw(st.sampled_from(["gauss", "poly", "sin"]))
         case["fpars"] = [draw(st.floats(-3.0, 3.0)), draw(st.floats(0.3, 3.0)), draw(st.floats(0.01, 1.0))]
+        # the density as the caller has it: a plain function, or the method of an object (dist.pdf)
+        case["fas"] = draw(st.sampled_from(["function", "function", "method"]))
     else:
         case["p"] = draw(st.lists(st.floats(-2.0, 2.0).map(lambda e: 10.0 ** e), min_size=n, max_size=n))
+        if form == "points" and draw(st.integers(0, 4)) == 0:
+            # a positive density tabulated far into its tails (a Gaussian out to 5..30 sigma on one or both sides):
+            # in float64 the normalised cumulative reaches 1.0 (or stays at its first value) well inside the grid
+            case["tails"] = {"nsig": draw(st.sampled_from([5.0, 8.0, 10.0, 12.0, 20.0, 30.0])),
+                             "side": draw(st.sampled_from(["both", "right", "left"]))}
     nu = draw(st.integers(1, 12))
     case["u"] = draw(st.lists(U01, min_size=nu, max_size=nu))
+    if "tails" in case:
+        case["u"] = case["u"] + [1.0, 0.0]
     # deviates taken from the table itself: index k -> the k-th tabulated cumulative value (+- neighbours)
     case["tab"] = draw(st.lists(st.tuples(st.integers(0, n - 2), st.sampled_from([0, 0, 1, -1])).map(list),
                                 min_size=0, max_size=6))
@@ -424,6 +446,12 @@ def _gen_table(case):
         p = _density_fn(case["fkind"], case["fpars"])(x)
     else:
         p = np.array(case["p"], dtype="f8")
+        if case.get("tails"):
+            t = case["tails"]
+            lo, hi = x[0], x[-1]
+            mid = {"both": (lo + hi) / 2, "right": lo, "left": hi}[t["side"]]
+            sig = (hi - lo) / ((2.0 if t["side"] == "both" else 1.0) * t["nsig"])
+            p = np.exp(-0.5 * ((x - mid) / sig) ** 2)
     if form == "cumulative":
         p = np.cumsum(p)            # an increasing cumulative table
     return x, p
@@ -450,10 +478,9 @@ def check_generator(case, ctx):
     elif form == "cumulative":
         gen = must(er.Generator, p, x=xin, cumulative=True, rng=stub)
     elif form == "func-x":
-        gen = must(er.Generator, _density_fn(case["fkind"], case["fpars"]), x=xin, rng=stub)
+        gen = must(er.Generator, _density_arg(case), x=xin, rng=stub)
     else:
-        gen = must(er.Generator, _density_fn(case["fkind"], case["fpars"]), xrange=list(case["xrange"]),
-                   nx=case["nx"], rng=stub)
+        gen = must(er.Generator, _density_arg(case), xrange=list(case["xrange"]), nx=case["nx"], rng=stub)
     # the object's cumulative table is the normalised trapezoid rule
     gpc = np.asarray(gen.pcum, dtype="f8")
     require(gpc.shape == (npc,), "Generator.pcum has shape %r, expected %d entries", gpc.shape, npc)
@@ -482,10 +509,16 @@ def check_generator(case, ctx):
             "Generator.sample(%d) drew its deviates with %r", u.size, stub.calls)
     require(isinstance(got, np.ndarray) and got.shape == (u.size,), "Generator.sample(%d) returned shape %r", u.size,
             np.shape(got))
-    require(np.isfinite(got).all(), "Generator.sample returned a non-finite value for u=%r", u[~np.isfinite(got)][:1])
+    inside = u >= gpc[0]
+    # below the first tabulated value the map is the extension of the first segment; when that segment is flat in
+    # float64 (a density tabulated far into a tail) there is no such line and nothing is demanded there
+    judged = inside | (gpc[1] > gpc[0] if gpc.size > 1 else False)
+    if not judged.all():
+        ctx.count("deviates below a flat first segment (nothing demanded)", int((~judged).sum()))
+    require(np.isfinite(got[judged]).all(), "Generator.sample returned a non-finite value for u=%r",
+            u[judged & ~np.isfinite(got)][:1])
     xscale = float(np.max(np.abs(x)))
     span = float(x[-1] - x[0])
-    inside = u >= gpc[0]
     ref, m = inverse_ref(xv, pc, u)
     # conditioning: the cumulative carries ~npc*eps of rounding, amplified by the local slope dx/dpcum
     slope = np.abs((xv[1:] - xv[:-1]) / (pc[1:] - pc[:-1])).astype("f8")
@@ -502,11 +535,14 @@ def check_generator(case, ctx):
     bad = inside & ((got < lo - ulp) | (got > x[-1] + ulp))
     require(not bad.any(), "Generator.sample: u=%r -> %r leaves the grid [%r, %r]", u[bad][:1], got[bad][:1], lo, x[-1])
     for i, k in tab_at.items():
-        require(abs(got[i] - float(xv[k])) <= ulp, "Generator.sample: u = pcum[%d] = %.17g -> %.17g, the grid point is "
-                "%.17g", k, u[i], got[i], float(xv[k]))
-    order = np.argsort(u, kind="stable")
-    dec = np.diff(got[order])
-    require(not np.any(dec < -2 * ulp), "Generator.sample is decreasing in u: u=%r -> %r", u[order], got[order])
+        # several grid points can share one float64 cumulative value (flat tail): each of them is "the" grid point
+        tied = np.nonzero(gpc == gpc[k])[0]
+        require(any(abs(got[i] - float(xv[t])) <= ulp for t in tied.tolist()), "Generator.sample: u = pcum[%d] = %.17g "
+                "-> %.17g, the grid point is %.17g", k, u[i], got[i], float(xv[k]))
+    order = np.argsort(u[judged], kind="stable")
+    dec = np.diff(got[judged][order])
+    require(not np.any(dec < -2 * ulp), "Generator.sample is decreasing in u: u=%r -> %r", u[judged][order],
+            got[judged][order])
     ctx.count("deviates", int(u.size))
     ctx.count("deviates below the first tabulated cumulative value (extrapolated, only finite+monotone demanded)",
               int((~inside).sum()))
@@ -522,6 +558,10 @@ def check_generator(case, ctx):
 
 def classify_gen(case):
     labs = ["form:" + case["form"]]
+    if case.get("fas"):
+        labs.append("density-given-as:" + case["fas"])
+    if case.get("tails"):
+        labs.append("density-far-into-tails:%g-sigma" % case["tails"]["nsig"])
     if any(off == 0 for _, off in case["tab"]):
         labs.append("nt:u-tabulated")
     if any(off != 0 for _, off in case["tab"]):
